@@ -2,6 +2,7 @@ import Lean.Data.Json
 import MoSql.Gen.Levels
 import MoSql.Gen.FmtTable
 import MoSql.Script
+import MoSql.Query
 /-
 Line-protocol driver: one JSON request per line on stdin, one JSON answer per line on stdout.
 Imports the model files and Lean's JSON library only (no Mathlib), so it is also built as the
@@ -217,6 +218,27 @@ def handleScript (req : Json) : Except String String := do
     | .directive t => "[\"d\"," ++ jstr (String.ofList t) ++ "]"
   pure ("{\"pieces\":[" ++ ",".intercalate items ++ "]}")
 
+def handleUnion (req : Json) : Except String String := do
+  let first ← toJ (← req.getObjVal? "first")
+  let restJ ← req.getObjVal? "rest"
+  let rest ← match restJ with
+    | .arr xs => xs.toList.mapM fun p =>
+        match p with
+        | .arr #[.str op, v] => do
+          let j ← toJ v
+          pure (op, j)
+        | _ => err "bad chain element"
+    | _ => err "rest must be a list"
+  let get := fun (k : String) => match req.getObjVal? k with
+    | .ok v => toJ v
+    | .error _ => pure J.null
+  let ob ← get "orderby"
+  let lim ← get "limit"
+  let off ← get "offset"
+  let model := Query.toUnionCall first rest ob lim off
+  let sp := Query.spec first rest.length rest
+  pure ("{\"model\":" ++ model.render ++ ",\"spec\":" ++ sp.render ++ "}")
+
 def handleAccumulate (req : Json) : Except String String := do
   let outs ← req.getObjVal? "outs"
   match outs with
@@ -236,6 +258,7 @@ def handle (line : String) : String :=
       | .ok "fmt" => handleFmt req
       | .ok "script" => handleScript req
       | .ok "accumulate" => handleAccumulate req
+      | .ok "union" => handleUnion req
       | .ok "fmtTable" => pure handleFmtTable
       | .ok "ping" => pure "{\"pong\":true}"
       | .ok o => err ("unknown op " ++ o)
